@@ -8,6 +8,7 @@ use std::time::{Duration, Instant};
 mod c01;
 mod c03;
 mod c05;
+mod c09;
 mod c10;
 mod c11;
 mod c12;
@@ -36,6 +37,8 @@ fn main() {
         "human_float" => c15::human_float(rest),
         "human_count" => c15::human_count(rest),
         "formatted_duration" => c15::formatted_duration(rest),
+        "est_decay" => c09::est_decay(rest),
+        "est_laws" => c09::est_laws(rest),
         "render_keys" => c11::render_keys(rest),
         "render_wide" => c11::render_wide(rest),
         "render_lines" => c11::render_lines(rest),
